@@ -421,7 +421,11 @@ func TestProto(t *testing.T) {
 	total := map[string]int{}
 	for k := 0; k < n; k++ {
 		nn := 2 + r.Intn(5)
-		msg, st := runProtoCase(t, out, r, k, nn, randomConnected(r, nn), 2+r.Intn(2))
+		edges := randomConnected(r, nn)
+		if k%2 == 1 && nn >= 4 {
+			edges = randomSparse(r, nn)
+		}
+		msg, st := runProtoCase(t, out, r, k, nn, edges, 2+r.Intn(2))
 		if msg != "" {
 			fmt.Fprintf(out, "harnessfail %d %s\n", k, msg)
 		}
